@@ -5,8 +5,12 @@ reopen() and close+reconstruct on a real LogFile with small rotation length and
 optional retention runs in a scratch directory; crash-free it is checked after
 every operation, then EVERY crash point of the history (each interposed call,
 torn lengths for each write) is enumerated, followed by reconstruction and
-further writes.  Oracle: rotated files (oldest first) + current file form a
-contiguous piece of the written stream.
+further writes.  Then every interposed call of the history is made to FAIL once
+with an OSError (tape-chosen errno) while the process lives on: the application
+sees a normal return or the exception, carries on with the same object, closes
+and reconstructs, and/or retries the write (tape), and keeps writing.  Oracle:
+rotated files (oldest first) + current file form a contiguous piece of the
+written stream; only a write that raised may be missing from it.
 """
 import errno
 import os
@@ -19,17 +23,29 @@ from detsim.sim import StepLimit, Violation
 ID = "C53"
 ENGINE = "fs"
 LEVEL = "fault_enumeration"
-TECHNIQUE = "deterministic simulation: crash at every interposed filesystem call (+ torn writes) of seeded LogFile histories, contiguous-suffix oracle"
+TECHNIQUE = "deterministic simulation: crash at every interposed filesystem call (+ torn writes) and a one-shot OSError at every interposed call of seeded LogFile histories, contiguous-suffix oracle"
 QUICK_RUNS = 1800
 BATCH = 10
 COMPONENTS = {"real": ["twisted.python.logfile.LogFile/BaseLogFile (write, rotate, reopen, close, listLogs, _openFile)", "the real filesystem under a scratch directory (reads)"],
-              "stub": ["process/kernel boundary for mutating calls (detsim.fs interposer: crash points, torn writes)"]}
+              "stub": ["process/kernel boundary for mutating calls (detsim.fs interposer: crash points, torn writes, errno faults)"]}
 RULE = ("run = one tape-drawn history of 2..14 operations (write bytes / write multi-byte text / rotate / reopen / close+reconstruct) with rotateLength 4..80 and "
         "maxRotatedFiles in {None,1,2,3}; checked crash-free after every op, then every crash point and torn-write length is enumerated, each followed by reconstruction "
-        "and 2 more writes; non-trivial = at least one automatic rotation happened and a crash landed inside rotate()")
+        "and 2 more writes; then every interposed call (open/write/rename/remove/chmod) fails once with a tape-chosen errno (EIO/EACCES/ENOSPC/EBUSY/EPERM/EROFS/EMFILE/"
+        "EDQUOT/EFBIG as plausible for the call) in a live process: the application observes a normal return or the exception, then (tape) carries on with the same LogFile, "
+        "closes and reconstructs it, and/or retries the write, finishes the history and 2 more writes; the files are checked from the fault on after every operation that "
+        "entered a rotation or raised, and after the final close; non-trivial = at least one automatic rotation happened, a crash landed inside rotate() and an errno fault "
+        "landed on a rename/remove inside rotate()")
 ASSUMPTIONS = ["process crash (not power loss); rename() atomic; log file opened unbuffered as LogFile does, so each write() is one kernel write",
-               "the 'at least the rotation length when rotated' clause is evaluated for automatic (size-triggered) rotations only; an explicit rotate() may rotate a shorter file by design"]
-LEVEL_TEXT = "Exhaustive enumeration of crash points (incl. torn writes) for each sampled history; histories sampled by seed."
+               "the 'at least the rotation length when rotated' clause is evaluated for automatic (size-triggered) rotations only; an explicit rotate() may rotate a shorter file by design",
+               "errno family: one fault per execution; the failing call has no effect on the directory (a failed write wrote nothing); ENOENT is not injected for files that exist",
+               "errno family, narrow relaxations: a write() that RAISED may be absent from the files, present, or present as a prefix (the statement does not say whether it was 'written'); "
+               "every write that returned normally must be there (no retention count) and in order; after a fault the numbering of rotated files may have gaps, so 'exactly the newest N' "
+               "is weakened to 'at most N, contiguous suffix' there",
+               "errno family: an operation may raise only if the fault was injected into it or an earlier operation on the same LogFile object already raised (e.g. the unchanged rotate() "
+               "leaves the object with a closed file when its last rename or the re-open fails, and every later write() raises ValueError until reopen()/rotate()/reconstruction); an operation "
+               "raising on an object that never failed, with no fault in it, is reported like a raise in the crash-free pass"]
+LEVEL_TEXT = ("Exhaustive enumeration of crash points (incl. torn writes) and of single-call OSError fault points for each sampled history; histories, the errno of each "
+              "fault point and the application's reaction to a raised operation sampled by seed.")
 
 TEXT_ALPHABET = ["a", "b", "é", "€", "\U0001f600", "\n", "z"]
 
@@ -419,3 +435,13 @@ def _enumerate(sim, F, rot, keep, ops, extra):
         sim.step(1000000)
     sim.nontrivial = total_auto > 0 and crash_in_rotate > 0 and errno_in_rotate > 0
     sim.state((rot, keep, min(total_auto, 3)))
+
+
+MUTANTS = [
+    "seeded C53-r3-rotate-swallows-oserror (shift loop body in try/except OSError: continue) -> caught: contiguous-suffix:errno:wbytes@rename, nothing-lost-without-retention:errno:w*@rename (quick, run 0)",
+    "rotate(): shift loop body in try/except PermissionError: break (only EACCES/EPERM swallowed, current file then renamed over log.1) -> caught: contiguous-suffix:errno:wbytes@rename / @remove",
+    "BaseLogFile.write: self._file.write(data) in try/except OSError: pass (write error swallowed) -> caught: contiguous-suffix:errno:w*@write, nothing-lost-without-retention:errno:wtext@write",
+    "rotate(): final self._openFile() in try/except OSError: pass (rotate returns normally with a closed file) -> caught: errno-unfaulted-op-raised:errno:rotate@open(w+)",
+    "LogFile.write: self.size += len(data) moved before BaseLogFile.write -> caught: rotated-file-at-least-rotateLength:auto / :errno",
+    "seeded C53-listlogs-text-sort, C53-r2-listlogs-name-sort -> still caught (post-crash-contiguous:w*@rename; now also nothing-lost-without-retention:errno:wbytes@rename)",
+]
